@@ -26,7 +26,7 @@ var (
 
 func Pipe() (*PipeReader, *PipeWriter) { return vsync.NewPipe() }
 
-func ReadAll(r Reader) ([]byte, error)                 { return io.ReadAll(r) }
-func ReadFull(r Reader, b []byte) (int, error)         { return io.ReadFull(r, b) }
-func Copy(dst Writer, src Reader) (int64, error)       { return io.Copy(dst, src) }
-func WriteString(w Writer, s string) (int, error)      { return io.WriteString(w, s) }
+func ReadAll(r Reader) ([]byte, error)            { return io.ReadAll(r) }
+func ReadFull(r Reader, b []byte) (int, error)    { return io.ReadFull(r, b) }
+func Copy(dst Writer, src Reader) (int64, error)  { return io.Copy(dst, src) }
+func WriteString(w Writer, s string) (int, error) { return io.WriteString(w, s) }
